@@ -561,6 +561,7 @@ def run(ctx: Ctx) -> None:
 
 
 MUTANTS = [
+    ("route-presets-netmask", "vmnet/network.py", "            vms[i + 1].params[\"vpnconn_remote_net_%s\" % fvpn] = prev_net\n", "            vms[i + 1].params[\"vpnconn_remote_net_%s\" % fvpn] = prev_net\n            vms[i].params[\"vpnconn_remote_netmask_%s\" % fvpn] = prev_mask\n", "8w"),
     ("internetip-branch-inverted", "vmnet/tunnel.py", "        elif local1[\"type\"] == \"internetip\":\n            netconfig1 = None", "        elif local1[\"type\"] != \"internetip\":\n            netconfig1 = None", "9"),
     ("dynip-treated-as-ip", "vmnet/tunnel.py", "        elif peer1[\"type\"] == \"dynip\":\n            interface2 = node2.interfaces[", "        elif peer1[\"type\"] != \"dynip\":\n            interface2 = node2.interfaces[", "9"),
     ("pubkey-gets-psk-type", "vmnet/tunnel.py", "            params[\"vpnconn_key_type_%s\" % name] = \"PUBLIC\"", "            params[\"vpnconn_key_type_%s\" % name] = \"PSK\"", "9"),
